@@ -61,7 +61,7 @@ def run_harness(exe, script_lines, workdir, name, *, timeout=300, env=None, args
         died = "process died with signal %s (ASan/abort/segv)" % evs[-1].get("sig")
     elif rc != 0:
         died = "harness exit code %s" % rc
-    elif not evs or evs[-1].get("e") != "End":
+    elif not evs or evs[-1].get("e") not in ("End", "BatchEnd"):
         died = "trace does not end with End event"
     return sp, tp, evs, died, err.decode(errors="replace")
 
@@ -181,6 +181,8 @@ def replay_dir(ctx, rd):
     """./check <ID> --replay <dir>"""
     from . import build
     meta = json.load(open(os.path.join(rd, "replay.json")))
+    if meta.get("vsched"):
+        return replay_vsched(ctx, rd, meta)
     exe = os.path.join(build.ensure_lib(), "harness", meta["harness"])
     if not os.path.exists(exe):
         raise CheckError("harness %s not built; run the check once first" % meta["harness"])
@@ -197,3 +199,228 @@ def replay_dir(ctx, rd):
         raise CheckError(v.error)
     if not v.accepted:
         ctx.violation("replay: rejected at line %d" % (v.matched + 1), rd)
+
+
+# ----------------------------------------------------------------------------------------------------------------
+# controlled-scheduler executions (harness/vsched): one forked child per execution, the Reset event carries the
+# schedule policy that reproduces it ("rand <seed>", "pct <seed> <d>", "fixed a,b,c").
+
+FATAL = ("Died", "Deadlock")
+
+
+def split_vsched(evs):
+    """-> list of executions: dict(policy, events (without Reset), block) ; dfs summaries are returned separately"""
+    execs, summaries = [], []
+    cur = None
+    for e in evs:
+        k = e.get("e")
+        if k == "Reset":
+            cur = {"policy": e.get("sched", ""), "events": [], "reset": e}
+            if cur["policy"] == "dfs-summary":
+                summaries.append(cur)
+            else:
+                execs.append(cur)
+        elif k == "BatchEnd":
+            cur = None
+        elif cur is not None:
+            cur["events"].append(e)
+    return execs, summaries
+
+
+def _assign_blocks(execs_and_summaries_in_order, blocks):
+    """Walks Reset events in file order and attaches the scenario lines of the block that produced each."""
+    bi = 0
+    for ex in execs_and_summaries_in_order:
+        if bi >= len(blocks):
+            ex["scenario"] = []
+            continue
+        pol, lines = blocks[bi]
+        ex["scenario"] = lines
+        if pol.startswith("dfs"):
+            if ex["policy"] == "dfs-summary":
+                bi += 1
+        else:
+            bi += 1
+
+
+def _vs_script(policy, lines):
+    return ["EXEC " + policy] + list(lines)
+
+
+def drive_vsched(ctx, exe, blocks, spec_dir, module, cfg, *, label="vs", nbatch=None, harness_timeout=900,
+                 tlc_timeout=900, env=None, xmx="3g", max_confirm=3, classify=None):
+    """blocks: list of (policy, scenario_lines). Returns (n_executions, n_accepted).
+    classify(execution) -> None | (finding_id, what): lets a check route executions that match a *listed* known
+    finding (DESIGN 3.3) away from the verdict; it is consulted only for executions TLC or the scheduler rejected."""
+    if not blocks:
+        return 0, 0
+    nbatch = nbatch or min(NCPU, max(1, len(blocks) // 8))
+    batches = _chunks(blocks, nbatch)
+    wd = os.path.join(ctx.outdir, label)
+    shutil.rmtree(wd, ignore_errors=True)
+    os.makedirs(wd)
+
+    def one(bi):
+        b = batches[bi]
+        lines = []
+        for pol, sc in b:
+            lines += _vs_script(pol, sc)
+        lines.append("END")
+        sp, tp, evs, died, err = run_harness(exe, lines, wd, "b%03d" % bi, timeout=harness_timeout, env=env)
+        if died:
+            return ("runner-died", bi, died, None, None)
+        # attach scenario to each execution (file order)
+        order = []
+        cur = None
+        for e in evs:
+            if e.get("e") == "Reset":
+                cur = {"policy": e.get("sched", ""), "events": [], "reset": e}
+                order.append(cur)
+            elif e.get("e") == "BatchEnd":
+                cur = None
+            elif cur is not None:
+                cur["events"].append(e)
+        _assign_blocks(order, b)
+        execs = [x for x in order if x["policy"] != "dfs-summary"]
+        summ = [x for x in order if x["policy"] == "dfs-summary"]
+        bad, capped, good = [], [], []
+        for ex in execs:
+            kinds = [e.get("e") for e in ex["events"]]
+            if any(k in FATAL for k in kinds):
+                bad.append(ex)
+            elif "StepCap" in kinds:
+                capped.append(ex)
+            elif not kinds or kinds[-1] != "End":
+                bad.append(ex)
+            else:
+                good.append(ex)
+        clean = os.path.join(wd, "b%03d.clean.ndjson" % bi)
+        flat = []
+        for ex in good:
+            flat.append(ex["reset"])
+            flat += ex["events"]
+        write_clean_trace(flat, clean)
+        rejected = []
+        accepted = 0
+        gen = 0
+        remaining = good
+        # validate; on rejection drop the offending execution and continue with the rest (bounded)
+        for _round in range(max_confirm + 1):
+            if not remaining:
+                break
+            flat = []
+            for ex in remaining:
+                flat.append(ex["reset"])
+                flat += ex["events"]
+            write_clean_trace(flat, clean)
+            v = tlc.validate(spec_dir, module, cfg, clean, wd, timeout=tlc_timeout, tag="b%03d" % bi, xmx=xmx)
+            if v.error:
+                return ("error", bi, v.error, None, None)
+            gen += v.generated
+            if v.accepted:
+                accepted += len(remaining)
+                break
+            idx = exec_of_line(flat, v.matched + 1)
+            accepted += idx
+            ex = remaining[idx]
+            ex["rejected_event"] = flat[v.matched] if v.matched < len(flat) else None
+            rejected.append(ex)
+            remaining = remaining[idx + 1:]
+        else:
+            pass
+        return ("done", bi, {"bad": bad, "capped": capped, "rejected": rejected, "accepted": accepted,
+                             "n": len(execs), "summ": summ, "gen": gen, "unvalidated": len(remaining) if rejected and len(rejected) > max_confirm else 0}, None, None)
+
+    results = []
+    with cf.ThreadPoolExecutor(max_workers=min(NCPU, len(batches))) as pool:
+        for r in pool.map(one, range(len(batches))):
+            results.append(r)
+    total = accepted = 0
+    for kind, bi, info, _a, _b in results:
+        if kind == "runner-died":
+            raise CheckError("vsched runner failed on batch %d: %s" % (bi, info))
+        if kind == "error":
+            raise CheckError("trace validation machinery error (batch %d): %s" % (bi, info))
+        total += info["n"]
+        accepted += info["accepted"]
+        ctx.transitions += info["gen"]
+        for sm in info["summ"]:
+            for e in sm["events"]:
+                if e.get("e") == "DfsSummary":
+                    d = ctx.extra.setdefault("dfs", {"runs": 0, "unexplored": 0})
+                    d["runs"] += e.get("runs", 0)
+                    d["unexplored"] += e.get("unexplored", 0)
+        if info["capped"]:
+            ctx.inconclusive.append("%d executions hit the step cap (batch %d)" % (len(info["capped"]), bi))
+        for ex in info["bad"] + info["rejected"]:
+            if "rejected_event" in ex:
+                what = "trace rejected at event %s (policy '%s')" % (json.dumps(ex["rejected_event"]), ex["policy"][:80])
+            else:
+                fatal = [e for e in ex["events"] if e.get("e") in FATAL]
+                what = "execution ended with %s (policy '%s')" % (json.dumps(fatal[0]) if fatal else "no End event", ex["policy"][:80])
+            if classify:
+                kf = classify(ex)
+                if kf:
+                    ctx.known_finding(kf[0], kf[1])
+                    continue
+            if len(ctx.violations) >= max_confirm:
+                ctx.extra["further_rejections_not_confirmed"] = ctx.extra.get("further_rejections_not_confirmed", 0) + 1
+                continue
+            confirm_vsched(ctx, exe, ex, spec_dir, module, cfg, label, what, env, harness_timeout, tlc_timeout)
+    ctx.traces_ok += accepted
+    return total, accepted
+
+
+def _run_vs_single(exe, policy, scenario, rd, name, env, harness_timeout):
+    lines = _vs_script(policy, scenario) + ["END"]
+    sp, tp, evs, died, err = run_harness(exe, lines, rd, name, timeout=harness_timeout, env=env)
+    if died:
+        raise CheckError("vsched runner failed in isolated re-run: " + died)
+    execs, _ = split_vsched(evs)
+    return execs[0] if execs else {"policy": policy, "events": [], "reset": {"e": "Reset"}}
+
+
+def _vs_judge(ex, spec_dir, module, cfg, rd, tag, tlc_timeout):
+    """-> None if the execution is fine, else a description"""
+    kinds = [e.get("e") for e in ex["events"]]
+    fatal = [e for e in ex["events"] if e.get("e") in FATAL]
+    if fatal:
+        return "execution ended with %s" % json.dumps(fatal[0])
+    if "StepCap" in kinds:
+        return None
+    if not kinds or kinds[-1] != "End":
+        return "execution did not reach its End event"
+    clean = os.path.join(rd, tag + ".clean.ndjson")
+    write_clean_trace([ex["reset"]] + ex["events"], clean)
+    v = tlc.validate(spec_dir, module, cfg, clean, rd, timeout=tlc_timeout, tag=tag)
+    if v.error:
+        raise CheckError("trace validation machinery error on isolated execution: " + v.error)
+    if v.accepted:
+        return None
+    allv = [ex["reset"]] + ex["events"]
+    return "rejected at line %d: %s" % (v.matched + 1, json.dumps(allv[v.matched]) if v.matched < len(allv) else "?")
+
+
+def confirm_vsched(ctx, exe, ex, spec_dir, module, cfg, label, what, env, harness_timeout, tlc_timeout):
+    rd = ctx.new_replay_dir(label)
+    ex2 = _run_vs_single(exe, ex["policy"], ex["scenario"], rd, "replay", env, harness_timeout)
+    verdict = _vs_judge(ex2, spec_dir, module, cfg, rd, "replay", tlc_timeout)
+    meta = {"property": ctx.pid, "vsched": True, "label": label, "spec_dir": spec_dir, "module": module, "cfg": cfg,
+            "harness": os.path.basename(exe), "env": env or {}, "policy": ex["policy"], "scenario": ex["scenario"],
+            "what": what}
+    if verdict is None:
+        raise CheckError("vsched rejection did not reproduce in isolation (%s); replay dir %s" % (what, rd))
+    meta["confirmed"] = verdict
+    json.dump(meta, open(os.path.join(rd, "replay.json"), "w"), indent=1)
+    ctx.violation(what + " | reproduced in isolation: " + verdict, rd)
+
+
+def replay_vsched(ctx, rd, meta):
+    from . import build
+    exe = os.path.join(build.ensure_lib(), "harness", meta["harness"])
+    wd = os.path.join(ctx.outdir, "replay")
+    os.makedirs(wd, exist_ok=True)
+    ex = _run_vs_single(exe, meta["policy"], meta["scenario"], wd, "replay", meta.get("env"), 600)
+    verdict = _vs_judge(ex, meta["spec_dir"], meta["module"], meta["cfg"], wd, "replay", 900)
+    if verdict:
+        ctx.violation("replay: " + verdict, rd)
